@@ -20,6 +20,11 @@ type BatchSpec struct {
 	Ops     []KV                  `json:"ops,omitempty"`
 	Kids    map[string]*BatchSpec `json:"kids,omitempty"`
 	DelKids []string              `json:"delkids,omitempty"`
+	// AllocLate: how the Alloc-built operations of this batch are registered.
+	// 0: Alloc + AllocSet/Del/Merge one by one; 1: every Alloc first (plain
+	// operations in between), the registrations afterwards in reverse order;
+	// 2: one Alloc carved up for all of them, registered afterwards
+	AllocLate int `json:"allocLate,omitempty"`
 }
 
 func (b *BatchSpec) kidNames() []string {
